@@ -1774,6 +1774,40 @@ func evbSequential(r *h.Report) bool {
 			return false
 		}
 	}
+	// EXHAUSTIVE grid: every sequence of `depth` operations over subscribe / unsubscribe x {core, application} x {handler 1,
+	// handler 2} and publish, followed by one publication that shows the handler list — all ways in which de-duplication
+	// (same level AND same handler) and removal (exactly that pair) can go wrong on two handlers at two levels
+	tr0, nt0, ev0 := r.Traces, r.Dist["history:nontrivial"], r.Evaluations
+	alphabet := []string{"sub 0 1", "sub 0 2", "sub 1 1", "sub 1 2", "unsub 0 1", "unsub 0 2", "unsub 1 1", "unsub 1 2", "pub"}
+	depth := h.Scale(3, 4)
+	idx := make([]int, depth)
+	for {
+		ops := make([]string, 0, depth+1)
+		for _, i := range idx {
+			ops = append(ops, alphabet[i])
+		}
+		ops = append(ops, "pub")
+		if !evbRunHistory(r, d, ops, base) {
+			return false
+		}
+		if r.MismatchN > 0 || len(r.SpecFailures) > 0 {
+			break
+		}
+		k := depth - 1
+		for k >= 0 {
+			idx[k]++
+			if idx[k] < len(alphabet) {
+				break
+			}
+			idx[k] = 0
+			k--
+		}
+		if k < 0 {
+			break
+		}
+	}
+	exhTraces, exhNontrivial := r.Traces-tr0, r.Dist["history:nontrivial"]-nt0
+	r.Info["exhaustive-grid"] = fmt.Sprintf("all %d-operation sequences over %d operations + final publication: %d histories, %d evaluations", depth, len(alphabet), exhTraces, r.Evaluations-ev0)
 	if !evbScenarios(r, base) {
 		return false
 	}
@@ -1831,7 +1865,7 @@ func evbSequential(r *h.Report) bool {
 	}
 	r.Floor("publications among the operations", pubs, r.Evaluations, 0.30)
 	r.Floor("actions performed inside an application handler", appDone, appTotal, 0.40)
-	r.Floor("histories with both levels reached and a re-entrant action", r.Dist["history:nontrivial"], r.Traces, 0.50)
+	r.Floor("histories with both levels reached and a re-entrant action (generated histories)", r.Dist["history:nontrivial"]-exhNontrivial, r.Traces-exhTraces, 0.50)
 	return true
 }
 
